@@ -296,3 +296,34 @@ Definition same_iters (fuel : Z) (f : function_definition) (ts1 ts2 : list tin) 
   | Some a, Some b => if a =? b then VOk else VMismatch "iteration counts differ"
   | _, _ => VMismatch "run failed"
   end.
+
+(** * Expression stream (C06): one function over scalars and four arrays *)
+
+Definition expr_state (p : list Z) (q : list F) (n : Z) : state :=
+  let mk fl len cells inp := mkBlock fl len cells true inp in
+  mkState []
+    (PM.add 4%positive (mk false n (cells_from VInt (repeat 0 (Z.to_nat n)) 0 (PM.empty _)) false)
+    (PM.add 3%positive (mk true n (cells_from (fun f => VFloat (fcanon f)) (repeat F0 (Z.to_nat n)) 0 (PM.empty _)) false)
+    (PM.add 2%positive (mk true (zlen q) (cells_from (fun f => VFloat (fcanon f)) q 0 (PM.empty _)) true)
+    (PM.add 1%positive (mk false (zlen p) (cells_from VInt p 0 (PM.empty _)) true) (PM.empty _)))))
+    5%positive (PM.empty _) 0.
+
+(** parameters: xi yi : int32, xf yf : double, p : int32*, q : double*, out : double*, iout : int32* *)
+Definition run_expr_check (fuel : Z) (f : function_definition) (xi yi : Z) (xf yf : F)
+           (p : list Z) (q : list F) (exp_f : list F) (exp_i : list Z) : verdict :=
+  let st := expr_state p q (zlen exp_f) in
+  match call (fuel_of fuel) f
+             [VInt xi; VInt yi; VFloat (fcanon xf); VFloat (fcanon yf);
+              VPtr 1%positive 0; VPtr 2%positive 0; VPtr 3%positive 0; VPtr 4%positive 0] st with
+  | Returned st' (VInt 0) _ =>
+      match read_ptr st' (VPtr 3%positive 0) (zlen exp_f), read_ptr st' (VPtr 4%positive 0) (zlen exp_i) with
+      | Some (_, cf), Some (_, ci) =>
+          if negb (all2 same_float cf exp_f) then VMismatch "float results"
+          else if negb (all2 same_int ci exp_i) then VMismatch "int results" else VOk
+      | _, _ => VMismatch "result blocks"
+      end
+  | Returned _ _ _ => VMismatch "return value"
+  | Normal _ _ => VNoReturn
+  | Fail e => VFail e
+  | OutOfFuel => VFuel
+  end.
